@@ -236,7 +236,16 @@ fn simplify_what(w: &What) -> Vec<What> {
 /// Greedy delta debugging over the plan list; every candidate runs in a fresh process.
 fn minimise(mut plans: Vec<Plan>, kind: &str, known: &[String]) -> (Vec<Plan>, u64) {
     let mut tried = 0u64;
+    // minimisation is best effort within a wall-clock budget: in a changed tree
+    // with blocking shared state every candidate can cost seconds of stalls
+    let started = Instant::now();
+    let budget = std::time::Duration::from_secs(
+        std::env::var("VERIF_MINIMISE_SECS").ok().and_then(|s| s.parse().ok()).unwrap_or(90),
+    );
     let mut check = |cand: &Vec<Plan>, tried: &mut u64| {
+        if started.elapsed() > budget {
+            return false;
+        }
         *tried += 1;
         fails_with(cand, kind, known)
     };
@@ -260,7 +269,7 @@ fn minimise(mut plans: Vec<Plan>, kind: &str, known: &[String]) -> (Vec<Plan>, u
     }
     // 2. shrink every remaining plan
     let mut changed = true;
-    while changed && tried < 3000 {
+    while changed && tried < 3000 && started.elapsed() <= budget {
         changed = false;
         for pi in 0..plans.len() {
             // drop threads
